@@ -2,6 +2,8 @@
 Bridge lemmas: what the REGENERATED definitions (current /repo source) compute,
 in the closed forms the C01 theorems are stated about.  A change of the Go
 arithmetic that is not an algebraic identity breaks one of these lemmas.
+(The line profile's closed form, the validation predicates and the doAtSchedule state machine are bridged in
+`Pandora/Bridge/C01.lean`; this file is also used by C12.)
 -/
 import Pandora.Gen.Schedule
 import Pandora.Proofs.LineMath
@@ -29,15 +31,6 @@ theorem NewConst_eq (ops : ℝ) (D : ℤ) (h : 0 ≤ ops) :
 
 /-- slope of the line profile, operations per second² -/
 noncomputable def slope (f t : ℝ) (D : ℤ) : ℝ := (t - f) / secs D
-
-theorem NewLine_eq (f t : ℝ) (D : ℤ) (h : f ≠ t) :
-    NewLine f t D = Sched.doAt D (Go.f2i (cum (slope f t D) f (secs D)))
-      (fun i => Go.f2i (xk (slope f t D) f (i : ℝ) * 1000000000)) := by
-  unfold NewLine lineDoAt
-  simp only [h, if_false]
-  congr 1
-  · unfold cum slope secs; congr 1; ring
-  · funext i; unfold xk slope secs; congr 1; ring_nf
 
 theorem NewLine_flat (f : ℝ) (D : ℤ) : NewLine f f D = NewConst f D := by
   unfold NewLine; simp
